@@ -41,6 +41,15 @@ def main():
     patch = seed / 'patch.diff'
     env = {'PYTHONPATH': str(wt), 'PYTHONDONTWRITEBYTECODE': '1'}
     report = {'property': prop, 'seed': str(seed)}
+    pre = seed / 'validated.json'
+    if os.environ.get('SEEDTEST_VALIDATE_ONLY') or not pre.exists():
+        pass
+    else:
+        # step 1 was done beforehand by `seedtest.py ... ` with SEEDTEST_VALIDATE_ONLY=1 (in the scratch worktree, in parallel with other seeds)
+        v = json.loads(pre.read_text())
+        rc0, rc1, missing, out1 = v['demo_clean_rc'], v['demo_patched_rc'], v['pinned_tests_missing'], ''
+        print(f'{seed.name}: (validated beforehand) demo clean rc={rc0} patched rc={rc1}; pinned tests missing with patch: {len(missing)}')
+        return after_validation(seed, wt, keep, meta, prop, patch, report, rc0, rc1, missing, out1)
     sh(['git', '-C', str(wt), 'checkout', '--', '.'])
     rc0, out0 = sh(['/venv/bin/python', str(seed / 'demo.py')], cwd=wt, env=env)
     rc, out = sh(['git', '-C', str(wt), 'apply', str(patch)])
@@ -49,6 +58,14 @@ def main():
     rc1, out1 = sh(['/venv/bin/python', str(seed / 'demo.py')], cwd=wt, env=env)
     missing = suite_ok(wt)
     sh(['git', '-C', str(wt), 'checkout', '--', '.'])
+    if os.environ.get('SEEDTEST_VALIDATE_ONLY'):
+        pre.write_text(json.dumps({'demo_clean_rc': rc0, 'demo_patched_rc': rc1, 'pinned_tests_missing': missing}))
+        print(f'{seed.name}: validated: demo clean rc={rc0} patched rc={rc1}; pinned tests missing with patch: {len(missing)}')
+        return 0
+    return after_validation(seed, wt, keep, meta, prop, patch, report, rc0, rc1, missing, out1)
+
+
+def after_validation(seed, wt, keep, meta, prop, patch, report, rc0, rc1, missing, out1):
     report.update(demo_clean_rc=rc0, demo_patched_rc=rc1, pinned_tests_missing=missing)
     print(f'{seed.name}: demo clean rc={rc0} patched rc={rc1}; pinned tests missing with patch: {len(missing)}')
     valid = rc0 == 0 and rc1 != 0 and not missing
